@@ -212,6 +212,25 @@ pub fn run(ctx: &mut Ctx) {
         judge_one(ctx, &rd, &sp, &cfg, STEP, "unwrap-layouts");
     }
     if is16 {
+        // ---- high line numbers: the same documents pushed down by N lines (number column width)
+        for (k, npre) in [8usize, 97, 98, 99, 998, 999, 9_998, 99_998].iter().enumerate() {
+            let reps: u64 = if *npre > 5_000 { 1 } else if quick { 8 } else { 64 };
+            for j in 0..reps {
+                let i = (k as u64) * 1000 + j;
+                if i % n != shard {
+                    continue;
+                }
+                let mut r = Rng::for_case(seed, 84, i);
+                let sp = default_sp();
+                let mut gc = GenCfg::block(*r.pick(&UNITS));
+                gc.leading_lb = false;
+                gc.allow_inline = j % 2 == 0;
+                let mut d = gen_block_doc(&mut r, &gc);
+                d.insert(0, text("pre();\n".repeat(*npre)));
+                let rd = render(&d, &sp);
+                judge_one(ctx, &rd, &sp, &cfg, STEP, "high-line-numbers");
+            }
+        }
         // ---- regions starting / ending at any column, tab / space prefixes, multi-line inline
         // elements, files starting with a line break
         let total = 60_000 * scale;
@@ -224,6 +243,7 @@ pub fn run(ctx: &mut Ctx) {
             let mut gc = GenCfg::block(*r.pick(&UNITS));
             gc.words = gen::words_for(&[&sp]);
             gc.allow_inline = true;
+            gc.inline_tabs = i % 2 == 0;
             gc.leading_lb = true;
             gc.multibyte = i % 3 != 0;
             let mut d = gen_block_doc(&mut r, &gc);
